@@ -309,6 +309,9 @@ class PythonParserGenerator(IndentPrintMixin, NodeWalker):
         elif whitespace is not None:
             whitespace = regexpp(whitespace)
 
+        def regexpp_or_none(pattern: Any) -> str | None:
+            return regexpp(pattern) if pattern is not None else None
+
         name = grammar.directives.get('grammar', grammar.name)
         self.print(f'''
                 config = ParserConfig.new(
@@ -319,8 +322,8 @@ class PythonParserGenerator(IndentPrintMixin, NodeWalker):
                     ignorecase={grammar.config.ignorecase or False},
                     namechars={grammar.config.namechars or ""!r},
                     parseinfo={grammar.config.parseinfo},
-                    comments={regexpp(grammar.config.comments)},
-                    eol_comments={regexpp(grammar.config.eol_comments)},
+                    comments={regexpp_or_none(grammar.config.comments)},
+                    eol_comments={regexpp_or_none(grammar.config.eol_comments)},
                     keywords=KEYWORDS,
                     start={start!r},
                 )
